@@ -519,3 +519,28 @@ Proof.
   exists [ {| e_path := [n_aSQL]; e_dir := false |} ], [ext_SQL], [ {| a_pfx := Dot; a_path := [] |} ].
   vm_compute. repeat split; reflexivity.
 Qed.
+
+(* ------------------------------------------------------------------ further non-vacuity examples *)
+
+Example written_example :
+  written (fun o => path_eqb (snd o) [n_asql]) [(Rel, [n_asql]); (Rel, [n_bsql])] = [(Rel, [n_asql]); (Rel, [n_bsql])] /\
+  written (fun _ => false) [(Rel, [n_asql]); (Rel, [n_bsql])] = [].
+Proof. vm_compute. split; reflexivity. Qed.
+
+Example gi_glob_pattern_nonvacuous :
+  In {| p_neg := false; p_dir := false; p_comps := [CDStar; CGlob [GStar; GLit 46; GLit 104; GLit 113; GLit 108]] |} (parse_lines readme_lines) /\
+  cmatch [GStar; GLit 46; GLit 104; GLit 113; GLit 108] n_xhql = true /\
+  gi_ignored (parse_lines readme_lines) ([n_sub] ++ [n_xhql]) false = true.
+Proof. vm_compute. repeat split; auto. Qed.
+
+(** negation: the closest decision wins, so a later "!keep" line re-includes a file *)
+Example negation_example :
+  let ps := parse_lines [[42;46;115;113;108]; [33;97;46;115;113;108]] (* "*.sql", "!a.sql" *) in
+  gi_ignored ps [n_asql] false = false /\ gi_ignored ps [n_bsql] false = true /\ no_neg ps = false.
+Proof. vm_compute. repeat split; reflexivity. Qed.
+
+Example total_example :
+  (forall a, In a (effective_args []) -> lookup readme_tree (a_path a) <> None) /\
+  lookup readme_tree [n_xhql] = None /\
+  linted readme_tree [ext_sql] [] [ {| a_pfx := Rel; a_path := [n_xhql] |} ] = None.
+Proof. split; [|vm_compute; split; reflexivity]. intros a [<-|[]]. cbn. discriminate. Qed.
